@@ -2,6 +2,7 @@ package main
 
 import (
 	"fmt"
+	"strings"
 	"sync/atomic"
 	"time"
 
@@ -196,6 +197,10 @@ func checkC11(tier, replay string) int {
 				n += o.Filters
 				nnp += o.NNP
 			}
+			return
+		}
+		if rep.Err != nil && strings.Contains(*rep.Err, panicMark) {
+			ctx.Violation("C11:load-panicked:"+cls, "LoadFilter panicked: "+*rep.Err, c)
 			return
 		}
 		fAfter, nnpAfter := countFilters(rep.After)
